@@ -754,6 +754,7 @@ def run(ck):
         "C03: the Cloudflare-Datadog and Elasticsearch bulk decoders: lines as JSON trees walked by model/NdjsonWalk.v (jx trusted; the line text is the harness's rendering of the tree); lines over 64 KiB only at the level of which lines become rows (model/Ndjson.v)",
         "C03: time.Now() is an oracle: the clock readings of a case are read off the observed rows (a row whose timestamp lies between the clock just before the parser was started and just after its channel was closed counts as a reading, any other row gets the start time, so a stamp outside the request shows as a wrong row); wall clock assumed not to step backwards during a request; Influx lines and Datadog metric series get one reading each (an instant of the request whose truncation to the precision is the row's timestamp / the first row's timestamp)",
         "C03: OTLP any-value rendering is model/AnyValue.v (owner C04; double printing = model/GoFloat.v of C15); Influx message lines with a float field next to message are not compared (fmt.Sprint of a float64 not modelled); the order Go's map iteration gives the other fields is read off the row by the harness (rendering with the logfmt library) and only used as the order in which the model renders",
+        "C03: request options (model/ReqOpts.v): net/http's header map and url.Query() are trusted (the harness sets the X-Ttl-Days header value as written, without the white-space trimming of a real server, and writes the precision parameter with url.Values.Encode); the route cases run PushInfluxV2 with a recording registry in place of the insert services",
         "C03: bodies read through a failing reader: gzip.NewReader / snappy.NewReader as the middleware wraps them, without helpers.LimitDecoded (C05); a framed snappy stream cut between two chunks is a valid shorter stream and is not judged",
     ]
     consts = regen(ck)
